@@ -241,9 +241,12 @@ def build_lib(verbose=False):
         return sym, plain, st
 
 
-def build_harness(name, sources, verbose=False, extra_flags=()):
+def build_harness(name, sources, verbose=False, extra_flags=(), exclude=()):
     """compiles harness sources with the same pipeline and links <name>.sym and <name>.plain ; returns paths"""
     sym, plain, st = build_lib(verbose)
+    # translation units that the harness re-compiles itself (#include of the .cpp) are left out of the link
+    sym = [o for o in sym if os.path.basename(o).split(".")[0] not in exclude]
+    plain = [o for o in plain if os.path.basename(o).split(".")[0] not in exclude]
     hd = os.path.join(CACHE, "harness", name)
     os.makedirs(hd, exist_ok=True)
     with Lock("harness_" + name):
